@@ -135,7 +135,7 @@ def explicit_p2sh_sessions(tier):
     out = []
     cases = [("51", []), ("527551", []), ("935387", ["01", "02"]), ("76a97c87", ["aa"]), ("00", [])]
     if tier == "thorough":
-        cases += [("5152935387", []), ("61" * 20 + "51", []), ("4c03aabbcc7551", []), ("7551", ["07"])]
+        cases += [("5152935387", []), ("61" * 20 + "51", []), ("03aabbcc7551", []), ("7551", ["07"])]
     for (redeem, st) in cases:
         spk = "a914" + _hash160(bytes.fromhex(redeem)).hex() + "87"
         stack = list(st) + [redeem]
